@@ -361,6 +361,15 @@ def rule_c11_worker(prog: Program, col: Collector) -> None:
                     ms = hi[2]
                     # max_size = max_size if max_size is not None else len(possible_actions)
                     okrange = has_subterm(ms, ("param", pp[1]))
+                    mp = ("param", pp[1])
+                    if ms != mp:
+                        none_test = ms[0] in ("ifexp", "phi") and (
+                            (ms[1] in (("cmp", "is not", mp, ("const", None)), ("cmp", "!=", mp, ("const", None))) and ms[2] == mp) or
+                            (ms[1] in (("cmp", "is", mp, ("const", None)), ("cmp", "==", mp, ("const", None))) and ms[3] == mp))
+                        col.check(none_test, pref.where(), pref.short,
+                                  "the size bound falls back to 'all' only when max_size IS None (0 is a valid bound: only the empty set)",
+                                  construct="enum-none-test",
+                                  necessity="`max_size or n` treats the limit 0 as unbounded: the search enumerates every subset instead of the empty set only")
         col.check(okrange, pref.where(), pref.short, "sizes range over range(0 .. max_size + 1)", construct="enum-range",
                   necessity="range(max_size) misses the largest sets, range(1, ..) misses the empty set (row 0 of best-states)")
     nref = prog.func("gameplay.possible_next_actions")
